@@ -156,6 +156,13 @@ func c14Alphabet(thorough bool) []c14Inv {
 	add(a, "define", "-q", "note=x", "gene", "2..5")
 	add(a, "define", "-q", "note=y", "gene", "2..5")
 	add(a, "define", "-F", "fasta", "gene", "2..5")
+	add(a, "define", "-q", "gene=a", "-q", "note=x", "gene", "2..5")
+	add(a, "define", "-q", "gene=b", "-q", "note=x", "gene", "2..5")
+	add(a, "define", "-q", "note=x", "-q", "gene=a", "gene", "2..5")
+	add(a, "search", "-q", "gene=a", "-q", "note=hit", "@acg")
+	add(a, "search", "-q", "gene=b", "-q", "note=hit", "@acg")
+	add(a, "query", "-n", "gene", "-n", "note")
+	add(a, "query", "-n", "note", "-n", "gene")
 	add(ab, "delete", "2..5")
 	add(a, "delete", "3..6")
 	add(a, "delete", "-e", "2..5")
@@ -262,19 +269,58 @@ var (
 	c14Refs  = map[string]clidrv.Result{}
 )
 
-func c14Ref(inv c14Inv) clidrv.Result {
+func c14OutName(inv c14Inv) string {
+	for _, a := range inv.Args {
+		if a == "OUT" {
+			return "out.file"
+		}
+		if strings.HasPrefix(a, "OUT.") {
+			return "out" + a[3:]
+		}
+	}
+	return ""
+}
+
+func c14WithPrior(inv c14Inv, prior []byte) map[string][]byte {
+	f := inv.files()
+	if n := c14OutName(inv); n != "" && prior != nil {
+		f[n] = prior
+	}
+	return f
+}
+
+func c14Ref(inv c14Inv) clidrv.Result { return c14RefPrior(inv, nil) }
+
+// c14RefPrior: the uncached run, started with the -o target already holding prior (nil: absent).
+func c14RefPrior(inv c14Inv, prior []byte) clidrv.Result {
 	key := inv.String()
+	if prior != nil {
+		key += fmt.Sprintf("|prior:%x", engine.Hash(string(prior)))
+	}
 	c14RefMu.Lock()
 	if r, ok := c14Refs[key]; ok {
 		c14RefMu.Unlock()
 		return r
 	}
 	c14RefMu.Unlock()
-	r, _ := clidrv.RunWithFiles(c14NoCache(c14Args(inv.Args)), c14Inputs[inv.Stdin], clidrv.State{}, inv.files())
+	r, _ := clidrv.RunWithFiles(c14NoCache(c14Args(inv.Args)), c14Inputs[inv.Stdin], clidrv.State{}, c14WithPrior(inv, prior))
 	c14RefMu.Lock()
 	c14Refs[key] = r
 	c14RefMu.Unlock()
 	return r
+}
+
+func c14NodeKey(st clidrv.State, outs map[string][]byte) string {
+	k := st.Key()
+	var names []string
+	for n := range outs {
+		names = append(names, n)
+	}
+	sort.Strings(names)
+	for _, n := range names {
+		k += fmt.Sprintf("|%s:%x", n, engine.Hash(string(outs[n])))
+	}
+	return k
 }
 
 func c14Describe(r clidrv.Result) string {
@@ -289,12 +335,35 @@ func c14Describe(r clidrv.Result) string {
 }
 
 // c14Step runs one invocation from a state and judges it.
+// outs: content of the -o targets left behind by earlier invocations of the history (they persist in the user's directory)
 func c14Step(inv c14Inv, st clidrv.State, hist []c14Inv) (clidrv.State, bool, string, string) {
-	ref := c14Ref(inv)
-	if ref.Exit == -1 {
-		return st, false, "harness", "cannot run the gts binary: " + ref.Stderr
+	ns, _, ok, sig, detail := c14StepOuts(inv, st, nil, hist)
+	return ns, ok, sig, detail
+}
+
+func c14StepOuts(inv c14Inv, st clidrv.State, outs map[string][]byte, hist []c14Inv) (clidrv.State, map[string][]byte, bool, string, string) {
+	ns, nouts, ok, sig, detail := c14StepInner(inv, st, outs, hist)
+	return ns, nouts, ok, sig, detail
+}
+
+func c14StepInner(inv c14Inv, st clidrv.State, outs map[string][]byte, hist []c14Inv) (clidrv.State, map[string][]byte, bool, string, string) {
+	var prior []byte
+	if n := c14OutName(inv); n != "" {
+		prior = outs[n]
 	}
-	res, ns := clidrv.RunWithFiles(c14Args(inv.Args), c14Inputs[inv.Stdin], st, inv.files())
+	ref := c14RefPrior(inv, prior)
+	if ref.Exit == -1 {
+		return st, outs, false, "harness", "cannot run the gts binary: " + ref.Stderr
+	}
+	res, ns := clidrv.RunWithFiles(c14Args(inv.Args), c14Inputs[inv.Stdin], st, c14WithPrior(inv, prior))
+	nouts := outs
+	if n := c14OutName(inv); n != "" && res.HasOut {
+		nouts = map[string][]byte{}
+		for k, v := range outs {
+			nouts[k] = v
+		}
+		nouts[n] = res.OutFile
+	}
 	engine.Outcome(fmt.Sprintf("%d|%x", res.Exit, engine.Hash(string(res.Stdout)+string(res.OutFile))))
 	if !res.Same(ref) {
 		sig := "cached-output-differs"
@@ -308,17 +377,18 @@ func c14Step(inv c14Inv, st clidrv.State, hist []c14Inv) (clidrv.State, bool, st
 		for _, h := range hist {
 			hs = append(hs, h.String())
 		}
-		return ns, false, sig, fmt.Sprintf("after [%s] the run `%s` gives %s; with --no-cache it gives %s", strings.Join(hs, " ; "), inv, c14Describe(res), c14Describe(ref))
+		return ns, nouts, false, sig, fmt.Sprintf("after [%s] the run `%s` gives %s; with --no-cache it gives %s", strings.Join(hs, " ; "), inv, c14Describe(res), c14Describe(ref))
 	}
-	return ns, true, "", ""
+	return ns, nouts, true, "", ""
 }
 
 func c14Eval(c c14Case) (ok bool, sig, detail string) {
 	c14Setup()
 	st := clidrv.State{}
+	var outs map[string][]byte
 	for i, inv := range c.History {
 		var okStep bool
-		st, okStep, sig, detail = c14Step(inv, st, c.History[:i])
+		st, outs, okStep, sig, detail = c14StepOuts(inv, st, outs, c.History[:i])
 		if !okStep {
 			return false, sig, detail
 		}
@@ -363,9 +433,10 @@ func init() {
 			type node struct {
 				st   clidrv.State
 				hist []c14Inv
+				outs map[string][]byte
 			}
 			judge := func(inv c14Inv, n node) (node, bool) {
-				ns, ok, sig, detail := c14Step(inv, n.st, n.hist)
+				ns, nouts, ok, sig, detail := c14StepOuts(inv, n.st, n.outs, n.hist)
 				hist := append(append([]c14Inv{}, n.hist...), inv)
 				r.Evals.Add(1)
 				r.Transitions.Add(1)
@@ -375,13 +446,13 @@ func init() {
 				if !ok {
 					r.Fail(engine.Failure{Sig: sig, Case: c14Case{History: hist}, Detail: detail, Size: len(hist)*1000 + len(inv.String())})
 				}
-				return node{ns, hist}, ok
+				return node{ns, hist, nouts}, ok
 			}
 			// level 1
 			level1 := make([]node, len(sigma))
 			var mu sync.Mutex
 			complete := r.ParallelFor(len(sigma), func(i int) {
-				n, _ := judge(sigma[i], node{clidrv.State{}, nil})
+				n, _ := judge(sigma[i], node{clidrv.State{}, nil, nil})
 				level1[i] = n
 				if seen.Add(n.st.Key()) {
 					r.States.Add(1)
@@ -407,7 +478,7 @@ func init() {
 				}
 			}
 			// deeper: BFS inside families, de-duplicated on the directory state
-			families := [][]string{{"extract"}, {"clear", "complement", "reverse", "repair"}, {"insert", "infix"}, {"select", "delete"}}
+			families := [][]string{{"extract"}, {"clear", "complement", "reverse", "repair"}, {"insert", "infix"}, {"select", "delete"}, {"-o"}}
 			depth := 3
 			if thorough {
 				depth = 4
@@ -422,13 +493,16 @@ func init() {
 						if inv.Args[0] == f && (inv.Stdin == "A" || inv.Stdin == "BAD" || inv.Stdin == "B") {
 							sub = append(sub, inv)
 						}
+						if f == "-o" && c14OutName(inv) == "out.gb" {
+							sub = append(sub, inv) // invocations writing to one and the same output path
+						}
 					}
 				}
 				if !thorough && len(sub) > 14 {
 					sub = sub[:14]
 				}
 				famSeen := engine.NewHashSet()
-				frontier := []node{{clidrv.State{}, nil}}
+				frontier := []node{{clidrv.State{}, nil, nil}}
 				for d := 1; d <= depth && complete; d++ {
 					var next []node
 					var nmu sync.Mutex
@@ -436,7 +510,7 @@ func init() {
 						n := frontier[idx/len(sub)]
 						inv := sub[idx%len(sub)]
 						nn, ok := judge(inv, n)
-						if ok && famSeen.Add(nn.st.Key()) {
+						if ok && famSeen.Add(c14NodeKey(nn.st, nn.outs)) {
 							if seen.Add(nn.st.Key()) {
 								r.States.Add(1)
 							}
@@ -479,7 +553,7 @@ func init() {
 					coreDepth = 4
 				}
 				coreSeen := engine.NewHashSet()
-				frontier := []node{{clidrv.State{}, nil}}
+				frontier := []node{{clidrv.State{}, nil, nil}}
 				for d := 1; d <= coreDepth && complete; d++ {
 					var next []node
 					var nmu sync.Mutex
@@ -487,7 +561,7 @@ func init() {
 						n := frontier[idx/len(core)]
 						inv := core[idx%len(core)]
 						nn, ok := judge(inv, n)
-						if ok && coreSeen.Add(nn.st.Key()) {
+						if ok && coreSeen.Add(c14NodeKey(nn.st, nn.outs)) {
 							if seen.Add(nn.st.Key()) {
 								r.States.Add(1)
 							}
